@@ -3,7 +3,7 @@
 import numpy as np
 
 from .. import oracles
-from ..gridutil import amax, argmax_where, case_class
+from ..gridutil import amax, argmax_where, case_class, cellbox, inbox
 from ..rec import rec
 
 PROPERTY = "C03"
@@ -60,11 +60,17 @@ def run(cap):
     ptol = 5e-4 if opts.get("extrapolate_profiles") else (5e-5 if dct else 1e-5)
     Bscale = max(amax(np.abs(nc["Brxy"])), amax(np.abs(nc["Bzxy"])))
     signs = []
+    nout = 0
     for suf in ("", "_xlow", "_ylow"):
         R, Z = nc["Rxy" + suf], nc["Zxy" + suf]
         gR, gZ = oracles.fd_grad(psi, R, Z, h=1e-4 * L)
-        out.append(rec("Brxy=psi_Z/R" + suf, cls, R.size, amax(np.abs(nc["Brxy" + suf] - gZ / R)) / Bscale, 1e-7, where=argmax_where(np.abs(nc["Brxy" + suf] - gZ / R))))
-        out.append(rec("Bzxy=-psi_R/R" + suf, cls, R.size, amax(np.abs(nc["Bzxy" + suf] + gR / R)) / Bscale, 1e-7))
+        # outside the box of the psi data the interpolated psi has no derivative (see gridutil.psi_box)
+        M = inbox(eq, R, Z, margin=2e-4 * L)
+        nout += int((~M).sum())
+        eBr = np.where(M, np.abs(nc["Brxy" + suf] - gZ / R), 0.0)
+        eBz = np.where(M, np.abs(nc["Bzxy" + suf] + gR / R), 0.0)
+        out.append(rec("Brxy=psi_Z/R" + suf, cls, int(M.sum()), amax(eBr) / Bscale, 1e-7, where=argmax_where(eBr)))
+        out.append(rec("Bzxy=-psi_R/R" + suf, cls, int(M.sum()), amax(eBz) / Bscale, 1e-7))
         out.append(rec("|Bpxy|=hypot(Br,Bz)" + suf, cls, R.size, amax(np.abs(np.abs(nc["Bpxy" + suf]) - np.hypot(nc["Brxy" + suf], nc["Bzxy" + suf]))) / Bscale, 1e-13))
         out.append(rec("Bxy=hypot(Bp,Bt)" + suf, cls, R.size, amax(np.abs(nc["Bxy" + suf] - np.hypot(nc["Bpxy" + suf], nc["Btxy" + suf])) / nc["Bxy" + suf]), 1e-13))
         signs.append(np.sign(nc["Bpxy" + suf]).ravel())
@@ -87,9 +93,12 @@ def run(cap):
         gR, gZ = oracles.fd_grad(psi, region.Rxy.centre, region.Zxy.centre, h=1e-4 * L)
         BR, BZ = gZ / region.Rxy.centre, -gR / region.Rxy.centre
         s = np.sign(BR * dR + BZ * dZ)
-        ncell += s.size
-        ndis += int((s != gsign).sum())
+        cb = cellbox(eq, region, margin=2e-4 * L)
+        ncell += int(cb.sum())
+        ndis += int(((s != gsign) & cb).sum())
     out.append(rec("sign(Bpxy)=sign(Bp.d(r)/dy)_every_cell", cls, ncell, ndis, 0))
+    if nout:
+        out.append(rec("informational: grid points outside the psi data box left out of the derivative-based predicates", cls + "|outside-box", nout, 0, 0))
 
     # ---- pressure --------------------------------------------------------------------
     extrap = bool(opts.get("extrapolate_profiles"))
@@ -167,6 +176,14 @@ def run(cap):
     xa = fam.critical_points()[1][0]
     Ro, Zo = newton_crit(psi, oa[0], oa[1], L)
     Rx, Zx = newton_crit(psi, xa[0], xa[1], L)
+    # the primary X-point is the one whose psi is closest to the axis value (a double
+    # null has two; the analytic family lists them in no particular order)
+    p_o = float(psi(Ro, Zo))
+    for xb in fam.critical_points()[1][1:2]:
+        Rb, Zb = newton_crit(psi, xb[0], xb[1], L)
+        if abs(float(psi(Rb, Zb)) - p_o) < abs(float(psi(Rx, Zx)) - p_o):
+            Rx, Zx = Rb, Zb
+            xa = xb
     prange = abs(pb - pa)
     ctol = 5e-4 if dct else 1e-6
     out.append(rec("psi_axis=psi(O-point)", cls, 1, abs(float(nc["psi_axis"]) - float(psi(Ro, Zo))) / prange, ctol))
